@@ -205,7 +205,7 @@ func cmdCheck(args []string) int {
 		dir, _ = os.MkdirTemp("", "govc-smt-")
 		defer os.RemoveAll(dir)
 	}
-	results := v.solveAll(obls, dir, *timeout, 16)
+	results := v.solveAll(obls, dir, *timeout, 6)
 
 	known := loadKnown(filepath.Join(*verifDir, "known_findings.txt"))
 	knownObl := map[string]knownFinding{}
